@@ -335,7 +335,7 @@ impl Check for C15 {
         let k = kinds::C15_KINDS.len() as u64;
         match tier {
             Tier::Quick => 12 * k,
-            Tier::Thorough => 100 * k,
+            Tier::Thorough => 60 * k,
         }
     }
     fn plan(&self, master: u64, idx: u64, tier: Tier) -> Value {
